@@ -161,6 +161,8 @@ def run(ctx, impl_only=False):
             pairs.append(({'rows': base, 'n': 1}, {'rows': t2, 'n': 1}))
         else:
             pairs.append((base, t2))
+    # inputs that share objects (one list at several positions of t1; t2 a shallow copy or a sub-object of t1)
+    pairs += FAM.alias_pairs(ctx, max(12, n // 12))
     reqs = []
     for (t1, t2) in pairs:
         s1, s2 = copy.deepcopy(t1), copy.deepcopy(t2)
